@@ -642,7 +642,10 @@ func c11SeqCount(base, maxLen int) int {
 func C11(c *mon.Ctx) {
 	// the monitor allocates many short-lived small objects and keeps almost nothing alive
 	defer debug.SetGCPercent(debug.SetGCPercent(800))
-	c.Rule = "Oracle: the harness's model values (canonical sorted sets/records, equality = Val.Key() equality); cedar-go values are read back through public accessors only. " +
+	// the check process runs with a non-UTC local zone (set before any worker starts): the text
+	// and JSON forms of values that hold datetimes must not depend on it
+	time.Local = time.FixedZone("verif-0930", -(9*3600 + 1800))
+	c.Rule = "The check process runs with a non-UTC local time zone. Oracle: the harness's model values (canonical sorted sets/records, equality = Val.Key() equality); cedar-go values are read back through public accessors only. " +
 		"seq: ALL sequences of length <=4 (quick) / <=5 (thorough) over three 12-value universes built to collide in the internal hash (hash 1 family; wrap-around 2^64-1 -> 0; FNV string/entity/record/long collisions), each " +
 		"checked for Len, Contains on every probe value (direct and through the evaluator), Slice/All/Iterate, the hash-table invariant hook, equality with twins in other insertion orders and a set literal through the evaluator, " +
 		"and ==/!=/containsAll/containsAny against a panel of 79 sets and every one-member-swapped/dropped/added neighbour (length-5 sequences: direct Equal against the whole panel, evaluator operators on a rotating third of it, 16 sampled neighbours). chains: random sequences up to length 40 over a dense 50-value block. " +
